@@ -10,6 +10,8 @@ import (
 	"go/parser"
 	"go/printer"
 	"go/token"
+	"reflect"
+	"sort"
 
 	"github.com/dave/dst"
 	"github.com/dave/dst/decorator"
@@ -56,9 +58,67 @@ func (r *failingPkgResolver) ResolvePackage(p string) (string, error) {
 	return "", resolver.ErrPackageNotFound
 }
 
+// astDump: every field of the go/ast tree incl. objects and scopes, deterministic (ast.Fprint
+// prints map entries -- Scope.Objects -- in map iteration order, so two dumps of one untouched
+// tree can differ); pointers are numbered in order of first visit, map keys are sorted
 func astDump(fset *token.FileSet, f *ast.File) string {
 	var b bytes.Buffer
-	ast.Fprint(&b, fset, f, ast.NotNilFilter)
+	ids := map[uintptr]int{}
+	var dump func(v reflect.Value, depth int)
+	dump = func(v reflect.Value, depth int) {
+		if depth > 200 {
+			b.WriteString("<deep>")
+			return
+		}
+		switch v.Kind() {
+		case reflect.Interface:
+			if v.IsNil() {
+				b.WriteString("nil")
+				return
+			}
+			dump(v.Elem(), depth+1)
+		case reflect.Ptr:
+			if v.IsNil() {
+				b.WriteString("nil")
+				return
+			}
+			if id, ok := ids[v.Pointer()]; ok {
+				fmt.Fprintf(&b, "@%d", id)
+				return
+			}
+			ids[v.Pointer()] = len(ids)
+			fmt.Fprintf(&b, "&%d:", len(ids)-1)
+			dump(v.Elem(), depth+1)
+		case reflect.Struct:
+			fmt.Fprintf(&b, "%s{", v.Type().Name())
+			for i := 0; i < v.NumField(); i++ {
+				fmt.Fprintf(&b, "%s=", v.Type().Field(i).Name)
+				dump(v.Field(i), depth+1)
+				b.WriteString(";")
+			}
+			b.WriteString("}\n")
+		case reflect.Slice:
+			b.WriteString("[")
+			for i := 0; i < v.Len(); i++ {
+				dump(v.Index(i), depth+1)
+				b.WriteString(",")
+			}
+			b.WriteString("]")
+		case reflect.Map:
+			keys := v.MapKeys()
+			sort.Slice(keys, func(i, j int) bool { return fmt.Sprint(keys[i]) < fmt.Sprint(keys[j]) })
+			b.WriteString("map[")
+			for _, k := range keys {
+				fmt.Fprintf(&b, "%v:", k)
+				dump(v.MapIndex(k), depth+1)
+				b.WriteString(",")
+			}
+			b.WriteString("]")
+		default:
+			fmt.Fprintf(&b, "%v", v)
+		}
+	}
+	dump(reflect.ValueOf(f), 0)
 	return b.String()
 }
 
@@ -213,6 +273,10 @@ func dstDiff(a, b string) string {
 }
 
 var c17Sources = []string{
+	// objects whose declaration comes later in the file are decorated out of order (a forward goto
+	// decorates the labelled statement from inside the branch statement; a use before the
+	// declaration decorates the declaring spec from inside the identifier): the resolver fails there too
+	"package main\n\nimport \"fmt\"\n\nfunc f(n int) int {\n\tif n > 1 {\n\t\tgoto done\n\t}\n\tfmt.Println(n)\ndone:\n\tfor i := 0; i < n; i++ {\n\t\tfmt.Print(i, later, helper(fmt.Sprint(i)))\n\t}\n\treturn n\n}\n\nvar later = fmt.Sprint(2)\n\nfunc helper(s string) string { return fmt.Sprint(s) }\n",
 	"package main\n\nimport (\n\t\"fmt\"\n\t\"os\"\n)\n\nfunc main() {\n\tfmt.Println(os.Args, fmt.Sprint(1))\n\tvar w = os.Stdout\n\t_ = w\n}\n",
 	"package main\n\nimport (\n\t\"io\"\n\tstr \"strings\"\n)\n\ntype T struct{ r io.Reader }\n\nfunc (t T) f(a io.Writer) (io.Reader, error) {\n\treturn str.NewReader(\"\"), io.EOF\n}\n",
 }
